@@ -341,7 +341,7 @@ def gen_cases(tier, rng):
             if a <= b or not quick:
                 yield bcast(ALL_ON + ",da=1,dw=150", [P(9, a, AVC_SH), P(9, a, AVC_IDR)] + JOINS + [P(9, (a + 150) & 0xffffffff, AVC_P), P(9, b, AVC_P), P(9, b, AVC_IDR)], "bcast-ts-dummy")
     # (6) structured random: mostly valid streams, consumers joining anywhere, random output sets
-    n = 250 if quick else 6000
+    n = 250 if quick else 20000
     for i in range(n):
         evs = stream_history(rng)
         js = list(JOINS)
@@ -350,19 +350,21 @@ def gen_cases(tier, rng):
             evs.insert(rng.randrange(len(evs) + 1), j)
         yield bcast(rand_cfg(rng), evs, "bcast-stream")
         pevs = [e for e in evs if e.startswith("P")]
-        yield Case("c05.ts %s" % ";".join(drop_empty(pevs)), cls="ts-stream")
-        yield Case("c05.rtsp 0 %s" % ";".join(drop_empty(pevs)), cls="rtsp-stream")
+        if drop_empty(pevs):
+            yield Case("c05.ts %s" % ";".join(drop_empty(pevs)), cls="ts-stream")
+            yield Case("c05.rtsp 0 %s" % ";".join(drop_empty(pevs)), cls="rtsp-stream")
         if i % 3 == 0:
             yield Case("c05.dummy %d 8 %s" % (rng.choice([0, 100, 150]), ";".join(pevs)), cls="dummy-stream")
     # (7) mutation stream: hostile histories
-    n = 700 if quick else 20000
+    n = 700 if quick else 80000
     for i in range(n):
         evs = rand_history(rng)
         yield bcast(rand_cfg(rng), evs, "bcast-hostile")
         if i % 2 == 0:
             pevs = [e for e in evs if e.startswith("P")]
-            yield Case("c05.ts %s" % ";".join(drop_empty(pevs)), cls="ts-hostile")
-            yield Case("c05.rtsp 0 %s" % ";".join(drop_empty(pevs)), cls="rtsp-hostile")
+            if drop_empty(pevs):
+                yield Case("c05.ts %s" % ";".join(drop_empty(pevs)), cls="ts-hostile")
+                yield Case("c05.rtsp 0 %s" % ";".join(drop_empty(pevs)), cls="rtsp-hostile")
         if i % 4 == 0:
             yield Case("c05.dummy %d 8 %s" % (rng.choice([0, 100, 150]), ";".join(pevs)), cls="dummy-hostile")
 
@@ -397,6 +399,8 @@ def oracle(case, impl_out):
     op = case.line.split(" ", 1)[0]
     if op in ("c05.cls", "c05.cls0"):
         return None
+    if op in ("c05.ts", "c05.rtsp") and any(e.endswith(":-") for e in case.line.split(" ")[-1].split(";")):
+        return None     # the remuxers sit behind the group's empty-payload gate: not a published-payload input
     m = T_RE.search(impl_out)
     if m:
         MAX_WALL_US[0] = max(MAX_WALL_US[0], int(m.group(1)))
@@ -439,6 +443,8 @@ def neighbors(case, rng):
             continue
         f = evs[i].split(":")
         b = mutate(rng, tok_bytes(f[3]))
+        if len(b) == 0 and parts[0] in ("c05.ts", "c05.rtsp"):
+            continue
         ev2 = list(evs)
         ev2[i] = ":".join(f[:3] + [hex_tok(b)])
         yield " ".join(parts[:-1] + [";".join(ev2)])
